@@ -797,6 +797,168 @@ theorem slow_start_history_exact (cb : Rat → Rat) (now mss : Nat) (hm : 0 < ms
 
 example : acked [.setRwnd 1000000, .ack 0 1000 5, .ack 1 400 5] = 1400 := rfl
 
+/-! ### Slow-start history under the floating-point error model: one extra byte per acknowledgement at most -/
+
+/-- One slow-start ACK under the floating-point error model: the unclamped window grows by at most the bytes
+acknowledged plus one; `cwnd` stays finite and ≥ 2; nothing else changes. -/
+theorem ack_unclamped_within_one_byte {e : FEnv} {ε : Rat} (R : Rounding e.rnd) (E : RoundErr e.rnd ε)
+    (hε : ε * 2 ^ 53 ≤ 1) (c : Cubic) (q r : Rat) (hq : c.cwnd = .fin q) (hq2 : 2 ≤ q) (hr : c.rwnd = .fin r)
+    (hm : 0 < c.mss) (hms : c.mss < 2 ^ 53) (hss : c.ssthresh = .pinf) (now len rtt : Nat) (hlen : len < 2 ^ 53)
+    (hB : max q 2 * c.mss + len ≤ 2 ^ 50) :
+    let c' := c.onAck e now len rtt
+    unclamped e c' ≤ unclamped e c + len + 1 ∧ (∃ q', c'.cwnd = .fin q' ∧ 2 ≤ q') ∧
+      c'.ssthresh = c.ssthresh ∧ c'.rwnd = c.rwnd ∧ c'.mss = c.mss ∧ c'.rwndBytes = c.rwndBytes := by
+  have hq0 : 0 ≤ q := by linarith
+  have hmq : (c.mss : Rat) ≠ 0 := by exact_mod_cast (Nat.pos_iff_ne_zero.mp hm)
+  have hmp : (0 : Rat) < c.mss := by exact_mod_cast hm
+  have hε0 := E.pos
+  have hlt : XR.lt c.cwnd c.ssthresh = true := by simp [hq, hss, XR.lt]
+  simp only [Cubic.onAck, Cubic.onAckWith]
+  split
+  · exact ⟨by omega, ⟨q, hq, hq2⟩, rfl, rfl, rfl, rfl⟩
+  split
+  · exact ⟨by omega, ⟨q, hq, hq2⟩, rfl, rfl, rfl, rfl⟩
+  have hmssF : c.mssF e = .fin (c.mss : Rat) := mssF_eq R c hms
+  have ha0 : 0 ≤ e.rnd ((len : Rat) / c.mss) := R.nonneg (by positivity)
+  have hs0 : 0 ≤ e.rnd (q + e.rnd ((len : Rat) / c.mss)) := R.nonneg (by positivity)
+  have hcl : ∃ y, XR.max (XR.min (.fin (e.rnd (q + e.rnd ((len : Rat) / c.mss)))) (.fin r)) Cubic.two = .fin y ∧
+      y ≤ max (e.rnd (q + e.rnd ((len : Rat) / c.mss))) 2 ∧ 2 ≤ y := by
+    by_cases h : r < e.rnd (q + e.rnd ((len : Rat) / c.mss))
+    · exact ⟨max r 2, by simp [XR.min, XR.lt, h, max_fin_two], max_le_max (le_of_lt h) (le_refl _), le_max_right _ _⟩
+    · exact ⟨max (e.rnd (q + e.rnd ((len : Rat) / c.mss))) 2, by simp [XR.min, XR.lt, h, max_fin_two], le_refl _, le_max_right _ _⟩
+  obtain ⟨y, hy, hyle, hy2⟩ := hcl
+  have hgoal : toUsize (.fin (e.rnd (max y 2 * (c.mss : Rat)))) ≤ toUsize (.fin (e.rnd (max q 2 * (c.mss : Rat)))) + len + 1 := by
+    have hM0 : 0 ≤ max q 2 * (c.mss : Rat) := by positivity
+    have hl0 : (0 : Rat) ≤ len := by positivity
+    have key := growth_key ε c.mss q len (e.rnd ((len : Rat) / c.mss)) (e.rnd (q + e.rnd ((len : Rat) / c.mss))) (max y 2)
+      (e.rnd (max q 2 * (c.mss : Rat))) (e.rnd (max y 2 * (c.mss : Rat))) hε0 hε hmp hq0 hl0 ha0
+      (E.le (by positivity)) (E.le (by positivity)) (le_max_right _ _) (max_le hyle (le_max_right _ _))
+      (E.le (by positivity)) (E.ge hM0) (fun h => R.mono h) hB
+    have hP0 : 0 ≤ e.rnd (max q 2 * (c.mss : Rat)) := R.nonneg hM0
+    have hP'0 : 0 ≤ e.rnd (max y 2 * (c.mss : Rat)) := R.nonneg (by positivity)
+    have hε1 : ε ≤ 1 := by nlinarith [hε, hε0]
+    have hPle : e.rnd (max q 2 * (c.mss : Rat)) ≤ 2 ^ 50 * 2 := by
+      have := E.le (rnd := e.rnd) hM0
+      nlinarith
+    have hlK : (len : Rat) ≤ 2 ^ 50 := by linarith
+    have h64 : (2 : Rat) ^ 50 * 2 + 2 ^ 50 + 1 < (U64MAX : Rat) := by simp only [U64MAX]; norm_num
+    exact toUsize_step len hP0 hP'0 (by linarith) (by linarith) key
+  refine ⟨?_, ?_, rfl, rfl, rfl, rfl⟩
+  · simp only [hq, hr, XR.ofNat, R.exactNat len hlen, XR.div, hmq, if_false, XR.add, unclamped, Cubic.mssF,
+      R.exactNat c.mss hms, hy, max_fin_two, XR.mul]
+    exact hgoal
+  · simp only [hq, hr, XR.ofNat, R.exactNat len hlen, XR.div, hmq, if_false, XR.add, Cubic.mssF,
+      R.exactNat c.mss hms, hy]
+    exact ⟨y, rfl, hy2⟩
+
+theorem lt_of_toUsize_le {P : Rat} {b : Nat} (hP : 0 ≤ P) (hb : b < U64MAX) (h : toUsize (.fin P) ≤ b) : P < b + 1 := by
+  have h0 : ¬ (P < 0) := not_lt.mpr hP
+  simp only [toUsize, h0, if_false] at h
+  have hf : P.floor.toNat ≤ b := by
+    simp only [Nat.min_def] at h
+    split at h <;> omega
+  have hfl0 : 0 ≤ P.floor := by rw [floor_eq]; exact Int.floor_nonneg.mpr hP
+  have h2 : P < ((P.floor + 1 : Int) : Rat) := Rat.lt_floor_add_one P
+  have h3 : P.floor + 1 ≤ (b : Int) + 1 := by omega
+  have h4 : ((P.floor + 1 : Int) : Rat) ≤ ((b : Int) + 1 : Int) := by exact_mod_cast h3
+  push_cast at h4 h2
+  linarith
+
+structure SSf (e : FEnv) (mss : Nat) (c : Cubic) (budget : Nat) : Prop where
+  mss : c.mss = mss
+  ss : c.ssthresh = .pinf
+  cw : ∃ q, c.cwnd = .fin q ∧ 2 ≤ q
+  rw : ∃ r, c.rwnd = .fin r
+  le : unclamped e c ≤ budget
+
+def maxLen : List Ev → Nat
+  | [] => 0
+  | .ack _ len _ :: es => max len (maxLen es)
+  | _ :: es => maxLen es
+
+theorem ssf_run {e : FEnv} {ε : Rat} (R : Rounding e.rnd) (E : RoundErr e.rnd ε) (hε : ε * 2 ^ 53 ≤ 1)
+    (mss : Nat) (hm : 0 < mss) (hms : mss < 2 ^ 53) (evs : List Ev) (hev : ∀ ev ∈ evs, ev.lossFree) :
+    ∀ (c : Cubic) (b : Nat), SSf e mss c b → 2 * (b + acked evs + evs.length + 1) + maxLen evs ≤ 2 ^ 50 →
+      SSf e mss (run e c evs) (b + acked evs + evs.length) := by
+  induction evs with
+  | nil => intro c b h _; simpa [run, acked] using h
+  | cons ev es ih =>
+    intro c b h hbig
+    have hes : ∀ ev ∈ es, ev.lossFree := fun x hx => hev x (List.mem_cons_of_mem _ hx)
+    have h1 := hev ev List.mem_cons_self
+    obtain ⟨q, hq, hq2⟩ := h.cw
+    obtain ⟨r, hr⟩ := h.rw
+    have hmq : (mss : Rat) ≠ 0 := by exact_mod_cast (Nat.pos_iff_ne_zero.mp hm)
+    cases ev with
+    | ack now len rtt =>
+      simp only [acked, maxLen, List.length_cons] at hbig
+      have hlen : len < 2 ^ 53 := by
+        have : len ≤ 2 ^ 50 := by omega
+        omega
+      -- magnitude bound for this step
+      have hε0 := E.pos
+      have hε1 : ε ≤ 1 / 2 := by nlinarith [hε, hε0]
+      have hM0 : 0 ≤ max q 2 * (c.mss : Rat) := by positivity
+      have hP : e.rnd (max q 2 * (c.mss : Rat)) < b + 1 := by
+        apply lt_of_toUsize_le (R.nonneg hM0) (by simp only [U64MAX]; omega)
+        have := h.le
+        simp only [unclamped, hq, max_fin_two, mssF_eq R c (by rw [h.mss]; exact hms), XR.mul] at this
+        exact this
+      have hge := E.ge (rnd := e.rnd) hM0
+      have hB : max q 2 * (c.mss : Rat) + len ≤ 2 ^ 50 := by
+        have h2 : max q 2 * (c.mss : Rat) ≤ 2 * ((b : Rat) + 1) := by nlinarith
+        have h3 : (2 * ((b : Rat) + 1) + len : Rat) ≤ 2 ^ 50 := by
+          have : 2 * (b + 1) + len ≤ 2 ^ 50 := by omega
+          exact_mod_cast this
+        linarith
+      have k0 := ack_unclamped_within_one_byte R E hε c q r hq hq2 hr (by rw [h.mss]; exact hm) (by rw [h.mss]; exact hms)
+        h.ss now len rtt hlen hB
+      have hnext : SSf e mss (c.onAck e now len rtt) (b + len + 1) :=
+        ⟨by rw [k0.2.2.2.2.1, h.mss], by rw [k0.2.2.1, h.ss], k0.2.1, ⟨r, by rw [k0.2.2.2.1, hr]⟩,
+          le_trans k0.1 (by have := h.le; omega)⟩
+      have := ih hes _ _ hnext (by omega)
+      have e1 : b + len + 1 + acked es + es.length = b + (len + acked es) + (es.length + 1) := by omega
+      simpa [run, step, acked, e1] using this
+    | setRwnd w =>
+      simp only [acked, maxLen, List.length_cons] at hbig
+      have hnext : SSf e mss (c.setRemoteWindow e w) b :=
+        ⟨h.mss, h.ss, ⟨q, hq, hq2⟩, by
+          simp only [Cubic.setRemoteWindow]
+          cases hd : XR.div e.rnd (XR.ofNat e.rnd w) (c.mssF e) with
+          | fin x => exact ⟨x, rfl⟩
+          | _ => simp [XR.div, XR.ofNat, mssF_eq R c (by rw [h.mss]; exact hms), h.mss, hmq] at hd, h.le⟩
+      have := ih hes _ _ hnext (by omega)
+      have hle : b + acked es + es.length ≤ b + acked es + (es.length + 1) := by omega
+      exact ⟨by simpa [run, step] using this.mss, by simpa [run, step] using this.ss, by simpa [run, step] using this.cw,
+        by simpa [run, step] using this.rw, le_trans (by simpa [run, step] using this.le) (by simp [acked])⟩
+    | rto => exact absurd h1 (by simp [Ev.lossFree])
+    | enter _ => exact absurd h1 (by simp [Ev.lossFree])
+    | recovered _ _ => exact absurd h1 (by simp [Ev.lossFree])
+    | setMss _ => exact absurd h1 (by simp [Ev.lossFree])
+
+/-- **C05/C15, slow-start history under binary64-style rounding.** From a fresh controller, after ANY sequence of
+acknowledgements and window updates with no loss signal in it, `window()` is at most two segments plus the bytes
+acknowledged so far plus ONE byte per acknowledgement processed (D15 shows the extra byte does occur) - for every
+rounding operator with relative error ≤ 2⁻⁵³ and totals below 2⁴⁸. -/
+theorem slow_start_history_within_one_byte_per_ack {e : FEnv} {ε : Rat} (R : Rounding e.rnd) (E : RoundErr e.rnd ε)
+    (hε : ε * 2 ^ 53 ≤ 1) (now mss : Nat) (hm : 0 < mss)
+    (evs : List Ev) (hev : ∀ ev ∈ evs, ev.lossFree)
+    (hbig : 2 * (2 * mss + acked evs + evs.length + 1) + maxLen evs ≤ 2 ^ 50) :
+    (run e (Cubic.new now mss) evs).window e ≤ 2 * mss + acked evs + evs.length := by
+  have hms : mss < 2 ^ 53 := by omega
+  have h0 : SSf e mss (Cubic.new now mss) (2 * mss) := by
+    refine ⟨rfl, rfl, ⟨2, by simp [Cubic.new, Gen.CUBIC_INITIAL_CWND], le_refl _⟩, ⟨0, rfl⟩, ?_⟩
+    have hmF : (Cubic.new now mss).mssF e = .fin (mss : Rat) := mssF_eq R _ hms
+    simp only [unclamped, hmF]
+    simp only [Cubic.new, Gen.CUBIC_INITIAL_CWND]
+    have : XR.max (.fin ((2 : Nat) : Rat)) Cubic.two = .fin 2 := by
+      rw [max_fin_two]; norm_num
+    rw [this]
+    simp only [XR.mul]
+    have h2 : (2 : Rat) * (mss : Rat) = ((2 * mss : Nat) : Rat) := by push_cast; ring
+    rw [h2, R.exactNat (2 * mss) (by omega), toUsize_fin_nat (2 * mss) (by simp only [U64MAX]; omega)]
+  exact le_trans (window_le_unclamped _ _) (ssf_run R E hε mss hm hms evs hev _ _ h0 hbig).le
+
 /-! ### Non-vacuity -/
 
 example : RoundErr id 0 := ⟨le_refl _, fun x => by simp⟩
